@@ -165,18 +165,21 @@ PLANT = ["plant-unknown", "plant-misplaced", "plant-unknown", "plant-misplaced",
 
 @st.composite
 def cases(draw):
+    from vf.pre import Pre
+    pre = Pre(draw, 32)     # control choices first (vf/pre.py)
+    strict = pre.bool()
     valid = treegen.valid_spec(max_nodes=30)
     fx = [s for s in treegen.subtrees_of_fixture(40) if s["n"] in R.node_mappings]
     base = st.one_of(valid, valid, st.sampled_from(fx)) if fx else valid
     sp0 = draw(base)
     root_name = sp0["n"]
-    sp, labels = draw(treegen.mutated(st.just(sp0), 0, 6, kinds=PLANT))
+    sp, labels = draw(treegen.mutated(st.just(sp0), 0 if pre.chance(8) else 1, 6, kinds=PLANT))
     sp["n"] = root_name
-    if draw(st.integers(0, 4)) == 0:
+    if pre.chance(5):
         # foreign content under additionalMetadata/metadata where the rules allow additionalMetadata (eml): opaque
         # below metadata, but the metadata node itself is an ordinary node (at most one child, no text, no attributes)
         hosts = [s for _, s in treegen.spec_nodes(sp) if s["n"] == "eml"]
-        if not hosts and draw(st.booleans()):
+        if not hosts and pre.bool():
             sp = {"n": "eml", "a": {"packageId": "p.1.1", "system": "s"}, "k": [sp] if sp["n"] == "dataset" else
                   [treegen.tables().min_spec("dataset")]}
             hosts = [sp]
@@ -185,30 +188,30 @@ def cases(draw):
             md = {"n": "metadata"}
             if inner:
                 md["k"] = inner
-            f = draw(st.integers(0, 7))
+            f = pre.int(0, 7)
             if f == 0:
                 md["a"] = {"id": "m1"}
             elif f == 1:
                 md["c"] = "text"
             am = {"n": "additionalMetadata", "k": [md]}
-            if draw(st.booleans()):
+            if pre.bool():
                 am["k"].insert(0, {"n": "describes", "c": "x"})
             hosts[0].setdefault("k", []).append(am)
-    if draw(st.integers(0, 3)) == 0:
+    if pre.chance(3):
         # the class the exception-steered implementation mishandles: offender under a parent with a content/attr error
         hosts = [s for _, s in treegen.spec_nodes(sp) if s["n"] in R.node_mappings and s["n"] != "metadata"]
         if not hosts:
-            return sp, draw(st.booleans())
-        h = hosts[draw(st.integers(0, len(hosts) - 1))]
-        h.setdefault("k", []).insert(draw(st.integers(0, len(h.get("k", [])))),
-                                     {"n": draw(st.sampled_from(["zzBogus", "software", "eml", "title"]))})
-        if draw(st.booleans()):
+            return sp, strict
+        h = pre.pick(hosts)
+        h.setdefault("k", []).insert(pre.int(0, len(h.get("k", []))),
+                                     {"n": pre.pick(["zzBogus", "software", "eml", "title"])})
+        if pre.bool():
             h.setdefault("a", {})["zzForeignAttr"] = "1"
         else:
             h["c"] = "unexpected text" if "c" not in h else None
             if h["c"] is None:
                 del h["c"]
-    return sp, draw(st.booleans())
+    return sp, strict
 
 
 def hyp_shard(ctx, shard):
